@@ -527,8 +527,8 @@ static const char *const c17_clauses[] = { "nonblocking-read-empty-wouldblock", 
 
 enum { PS_EMPTY, PS_PARTLY, PS_FULL, PS_FAR_CLOSED, NPS };
 static const char *const ps_names[] = { "empty", "partly-filled", "full", "far-side-closed" };
-enum { OPK_READ_OUT, OPK_READ_ERR, OPK_WRITE1, OPK_WRITE_CAP, OPK_WRITE_3CAP, NOPK };
-static const char *const opk_names[] = { "read-out", "read-err", "write-1", "write-cap", "write-3cap" };
+enum { OPK_READ_OUT, OPK_READ_ERR, OPK_WRITE1, OPK_WRITE_CAP, OPK_WRITE_3CAP, OPK_WRITE0, OPK_WRITE_CAPM1, OPK_WRITE_CAPP1, OPK_READ_OUT_BIG, NOPK };
+static const char *const opk_names[] = { "read-out", "read-err", "write-1", "write-cap", "write-3cap", "write-0", "write-cap-1", "write-cap+1", "read-out-8192" };
 enum { CK_IDLE, CK_SLOW, NCK };
 
 static char key17[200];
@@ -569,8 +569,9 @@ static void c17_stream_cfg(int nb, int ps, int opk, int ck)
   snprintf(key17, sizeof key17, "h_c17|%s|op=%s", nb ? "nonblocking" : "blocking", opk_names[opk]);
   hx_begin();
   vk_set_hang_hook(c17_hang);
-  int is_read = opk == OPK_READ_OUT || opk == OPK_READ_ERR;
+  int is_read = opk == OPK_READ_OUT || opk == OPK_READ_ERR || opk == OPK_READ_OUT_BIG;
   int s = opk == OPK_READ_ERR ? 2 : 1;
+  int rsize = opk == OPK_READ_OUT_BIG ? 8192 : 16;
   /* bring the pipe under test into the state; a slow child has one more step that makes progress possible */
   char script[96] = "";
   if (is_read) {
@@ -599,7 +600,7 @@ static void c17_stream_cfg(int nb, int ps, int opk, int ck)
     int f = ident_parent_fd_for_stream(c, i);
     if (f >= 0) fcntl(f, F_SETPIPE_SZ, CAP);
   }
-  static uint8_t buf[4 * CAP];
+  static uint8_t buf[4 * CAP + 8192];
   if (!is_read && (ps == PS_PARTLY || ps == PS_FULL)) {
     /* fill the stdin pipe from the harness side of the library: raw write on the parent's descriptor */
     int fl = fcntl(fd0, F_GETFL);
@@ -612,9 +613,9 @@ static void c17_stream_cfg(int nb, int ps, int opk, int ck)
   c17_in_api = 1;
   int res, api, size = 0;
   if (is_read) {
-    res = hx_read(p, s == 1 ? REPROC_STREAM_OUT : REPROC_STREAM_ERR, buf, 16);
+    res = hx_read(p, s == 1 ? REPROC_STREAM_OUT : REPROC_STREAM_ERR, buf, (size_t) rsize);
   } else {
-    size = opk == OPK_WRITE1 ? 1 : opk == OPK_WRITE_CAP ? CAP : 3 * CAP;
+    size = opk == OPK_WRITE1 ? 1 : opk == OPK_WRITE_CAP ? CAP : opk == OPK_WRITE0 ? 0 : opk == OPK_WRITE_CAPM1 ? CAP - 1 : opk == OPK_WRITE_CAPP1 ? CAP + 1 : 3 * CAP;
     res = hx_write(p, buf, (size_t) size);
   }
   api = hx_last_api;
@@ -648,7 +649,8 @@ static void c17_stream_cfg(int nb, int ps, int opk, int ck)
         else vk_hit(CL17_NB_READ_CLOSED);
       } else vk_violation("C17", "nonblocking-result", key17, "read returned %s", hx_errname(res));
     } else {
-      if (res == size) vk_hit(CL17_NB_WRITE_ROOM);
+      if (res == size && size == 0) vk_hit(CL17_NB_WRITE_ROOM);
+      else if (res == size) vk_hit(CL17_NB_WRITE_ROOM);
       else if (res > 0 && res < size) vk_hit(CL17_NB_WRITE_PARTIAL);
       else if (res == REPROC_EWOULDBLOCK) vk_hit(CL17_NB_WRITE_FULL);
       else if (res == REPROC_EPIPE) {
